@@ -41,8 +41,14 @@ func c14Gen(t *rapid.T) MultiCase {
 			a = []string{"SELECT", pick(t, "baddb", "16", "-1", "100", "abc", "9223372036854775807", "")}
 		case 3:
 			a = []string{randCase(t, "FLUSHDB")}
+			if m := pick(t, "fmod", "", "", "ASYNC", "SYNC", "async"); m != "" {
+				a = append(a, m)
+			}
 		case 4:
 			a = []string{randCase(t, "FLUSHALL")}
+			if m := pick(t, "fmod", "", "", "ASYNC", "SYNC", "async"); m != "" {
+				a = append(a, m)
+			}
 		case 5:
 			a = []string{"CLIENT", randCase(t, "SETNAME"), "name" + strconv.Itoa(rapid.IntRange(0, 3).Draw(t, "nm"))}
 		case 6:
@@ -273,7 +279,13 @@ func c14CRun(c C14CCase, st *kit.Stats) error {
 		if r%2 == 1 {
 			flusher = o
 		}
-		if v, err := flusher.Do(fl); err != nil || v.IsErr() {
+		fla := []string{fl}
+		if r%3 == 1 {
+			fla = append(fla, "ASYNC") // asynchronous only in how memory is reclaimed: the keys are gone when the reply is sent
+		} else if r%3 == 2 {
+			fla = append(fla, "SYNC")
+		}
+		if v, err := flusher.Do(fla...); err != nil || v.IsErr() {
 			return fmt.Errorf("%s: %v %v", fl, v, err)
 		}
 		for _, cn := range []*kit.Conn{w, o} {
